@@ -454,15 +454,20 @@ def life1(case, ctx):
     return points, info
 
 
-def td_expected(times, local_dt):
-    """TimeDate with times only: list of [[h,m,s],[h,m,s]] ranges (non wrapping)."""
+def td_expected(times, local_dt, conf=None):
+    """TimeDate with times (ranges may wrap around midnight); an empty dates/weekdays set = never."""
     if times is None:
+        return False
+    if conf is not None and (conf.get('weekdays') == [] or conf.get('dates') == []):
         return False
     tod = (local_dt.hour, local_dt.minute, local_dt.second, local_dt.microsecond)
     for lo, hi in times:
         lo4 = tuple(lo) + (0,) * (4 - len(lo))
         hi4 = tuple(hi) + (0,) * (4 - len(hi))
-        if lo4 <= tod < hi4:
+        if lo4 < hi4:
+            if lo4 <= tod < hi4:
+                return True
+        elif tod >= lo4 or tod < hi4:
             return True
     return False
 
@@ -627,7 +632,7 @@ def life2(case, point, downtime, ctx, origin):
             if got_state != conf:
                 viol.append(('config-not-restored', f"{where}: td saved {saved!r} usable={usable}, "
                              f"state {got_state!r}"))
-            elif got_out != td_expected(conf['times'], local2):
+            elif got_out != td_expected(conf['times'], local2, conf):
                 viol.append(('restored-output-wrong',
                              f"{where}: td config {conf!r} at {local2} output {got_out!r}"))
         elif name == 'ts':
@@ -868,7 +873,11 @@ def random_case(rng):
                 data['duration'] = rng.choice([2.5, 15.0])
             steps.append(['ev', 'iexp', 'put', data])
         elif r < 0.9:
-            steps.append(['ev', 'td', 'reconfig', {'times': rng.choice(TD_CHOICES)}])
+            # (a range wrapping around midnight; an EMPTY weekday / date list = never active,
+            # unlike None = unrestricted: the restart must bring back exactly that)
+            steps.append(['ev', 'td', 'reconfig', dict(
+                {'times': rng.choice(TD_CHOICES + [[[[22, 0], [2, 0]]]])},
+                **rng.choice([{}, {}, {'weekdays': []}, {'dates': []}]))])
         elif r < 0.95:
             steps.append(['ev', 'ts', 'reconfig', {'span': rng.choice(TS_CHOICES)}])
         else:
